@@ -13,8 +13,9 @@ SYSTEMS = ["SI", "mks", "cgs", "atomic", "Planck", "imperial", "US"]
 class Check(Property):
     ID = "C14"
     PROPS_FILE = "PintModel/Props/C14.lean"
-    MODULE = "PintModel.Props.C14"
-    EXTRA_LEAN_FILES = ["PintModel/Proofs/RuleInversion.lean"]
+    MODULE = "PintModel.Props.C14Memo"
+    EXTRA_PROPS_FILES = ["PintModel/Props/C14Memo.lean"]
+    EXTRA_LEAN_FILES = ["PintModel/Proofs/RuleInversion.lean", "PintModel/Model/DepMemo.lean"]
     RULE = ("canonical units x {SI, mks, cgs, atomic, Planck, imperial, US, none}: get_base_units(system=...), "
             "to_base_units after switching the default system, idempotence; every group's and system's members; "
             "compatible units restricted to every group/system for sampled units; edit sequences (new groups, "
